@@ -6,8 +6,8 @@
 package gomatrixserverlib
 
 import (
-	"crypto/sha1"
 	"bytes"
+	"crypto/sha1"
 	"sort"
 
 	"github.com/matrix-org/gomatrixserverlib/spec"
